@@ -26,7 +26,7 @@ from props import _token_util as U
 PROP = "C15"
 READY = True
 DRIVER = "dm_token"
-LEAN_MODULES = ["DaskModel.Props.C15", "DaskModel.Props.C15Unpack"]
+LEAN_MODULES = ["DaskModel.Props.C15", "DaskModel.Props.C15Unpack", "DaskModel.Props.C15xOps"]
 CASE_TIMEOUT_S = 120
 LEVEL_TEXT = ("Lean proof: for every delayed program (calls whose arguments nest Delayed values inside lists, tuples and "
               "dicts, shared sub-programs allowed) the graph assembled by merging the argument graphs and adding one task "
@@ -40,17 +40,36 @@ LEVEL_TEXT = ("Lean proof: for every delayed program (calls whose arguments nest
               "exactly the Delayed values inside and all of them are reported as dependencies (mem_refs, mem_colls, "
               "call_refs_covered); unpacked_arg_is_argEnv ties it to what delayed_eval assumes. Symbolic programs are run "
               "through the model, the real dask graph and eager Python, and the real unpack_collections / call task is "
-              "diffed against the model, on every run.")
+              "diffed against the model, on every run. Extension (Props/C15xOps): the program AST also has d <op> x, x <op> d "
+              "(reflected: partial(_swap, op)), unary operators, d[i], d.attr (DelayedAttr, legacy tuple task) and d.m(...) "
+              "(methodcaller); lower is the translation the code itself performs into one call_function task per operation "
+              "and delayed_eval_ops proves graph value = eager value for the extended AST (operators abstract); op_task / "
+              "shape_task_agree: the task has the operator as callable, the real arguments evaluate to the model's and the "
+              "real dependencies= are the model's; operator_keys_deterministic (key = injective function of operator and "
+              "operand tokens, via C12 normL_injective; Delayed operands contribute their keys), attr_/method_keys_"
+              "deterministic, purity_rules (operators pure, methods pure only if asked or configured), skey_sound (equal "
+              "symbolic keys => equal values: H1 discharged for pure nodes), dask_key_name_respected. Section ops diffs, for "
+              "generated operator / item / attribute / method programs, values (model eager = model graph = dask = eager "
+              "Python), graph keys and dependencies, per operation the real task (legacy or Task, callable identity, "
+              "argument references, dependencies=), the key-equality pattern against the symbolic keys and the exact key "
+              "of every pure node; section callname diffs the naming branch of call_function with uuid4 pinned.")
 LEVEL_NOTE = ("functions, methods and operators are opaque (value algebra); _finalize_args_collections (joint optimisation "
-              "of the collections of one argument, key renaming) and futures are outside the model; operators, attribute / "
-              "item access, methods with pure= / dask_key_name, nout over tuples, lists and dicts, and dask collections as "
-              "arguments are validated by the API-level oracle only; key hypotheses H1/H2 are checked on the real keys at "
-              "run time and follow from C12 (pure) / uuid4 freshness (impure).")
+              "of the collections of one argument, key renaming) and futures are outside the model; calling a Delayed value "
+              "(Delayed.__call__ -> apply), keyword arguments of methods, nout over tuples, lists and dicts, and dask "
+              "collections as arguments are validated by the API-level oracle only; which Python method an operator "
+              "expression is dispatched to is Python's business (a comparison with a DelayedLeaf / DelayedAttr on the right "
+              "of a plain Delayed reaches dask as the mirrored comparison: the harness applies that rule before the model); "
+              "key hypotheses H1/H2 are checked on the real keys at run time and follow from C12 / skey_sound (pure) and "
+              "uuid4 freshness (impure).")
 TECHNIQUE = "Lean 4 proof (mutual structural induction over a nested program AST, graph-merge lemmas of C13) + differential correspondence"
 ASSUMPTIONS = ["uuid4 keys of impure calls are fresh", "md5 injective (pure keys)",
                "HighLevelGraph.from_collections(name, {name: task}, dependencies) = the dependency graphs plus the new task",
-               "tuple(xs) / set(xs) of a computed list is the tuple / set of its elements (value algebra law of unpack_eval)"]
-TRUSTED = ["symbolic function family of harness/props/c15.py (a call returns the code of its function and arguments)"]
+               "tuple(xs) / set(xs) of a computed list is the tuple / set of its elements (value algebra law of unpack_eval)",
+               "a literal str operand is not the key of a Delayed (the token cannot tell them apart; C11 proviso)",
+               "comparisons of the computed values are mirror images (a > b == b < a), as Python assumes when it reflects a "
+               "comparison towards a subclass instance on the right"]
+TRUSTED = ["symbolic function family of harness/props/c15.py (a call returns the code of its function and arguments)",
+           "symbolic value class SymV of harness/props/_c15x_ops.py (every operator / item / attribute / method returns the code of the operation)"]
 
 M61 = 2305843009213693951
 
@@ -1089,7 +1108,9 @@ def _distinct_pv(specs):
     return out
 
 
-CASES = {"sym": case_sym, "purekey": case_purekey, "surface": case_surface, "nout": case_nout, "keys": case_keys,
+from props import _c15x_ops as XO
+
+CASES = {"ops": XO.case_ops, "callname": XO.case_callname, "sym": case_sym, "purekey": case_purekey, "surface": case_surface, "nout": case_nout, "keys": case_keys,
          "collarg": case_collarg, "unpackfn": case_unpackfn, "nout2": case_nout2}
 
 
@@ -1241,6 +1262,8 @@ def generate(ctx):
         yield "keys", {"n": rng.randint(0, 9)}
     for i in range(ctx.n(15, 100)):
         yield "collarg", {"idx": i, "n": rng.randint(1, 5), "scheduler": rng.choice(["sync", "threads"])}
+    # extension round: operators / item / attribute access / method calls (appended last: the streams above are unchanged)
+    yield from XO.generate(ctx)
 
 
 def search(ctx):
